@@ -289,6 +289,8 @@ def check(prop, tier, replay_case=None, replay_config=None):
         f"known={len(known)} new={len(new)} wall={wall:.1f}s (build {t_build:.1f}s)")
     for k in sorted(evals):
         log(f"   monitor {k}: {evals[k]}")
+    for n in sorted({n_ for n_ in notes if n_.startswith("longest CPU stretch")})[-3:]:
+        log("   watchdog margin:", n[:260])
     if new:
         return 1
     if inconclusive:
